@@ -1,4 +1,271 @@
-/- oracle_c01 — placeholder driver (replaced when the C01 model is added). -/
+/-
+  oracle_c01 — line-protocol driver for the C01 model (Model/Script*.lean) and spec (Spec/Script.lean).
+
+  CRYPTO SCHEME.  Hash functions (SHA-256, RIPEMD-160, SHA-1, tagged hashes) are computed here in Lean.
+  Everything else — the three signature-hash functions, ECDSA / Schnorr verification, the taproot tweak
+  check — is resolved ON THE GO SIDE against the real btc functions, lazily:
+    * the driver keeps a table  query ↦ answer  (state of the serve loop; `reset` empties it);
+    * `verify …` / `eval …` run model and spec with `Oracles` whose Option-valued fields are table look-ups;
+      the first look-up that misses aborts the evaluation with `need <query>`;
+    * the harness computes the answer with the real gocoin function (Tx.SignatureHash, btc.EcdsaVerify, …),
+      sends `def <query> <answer>` and repeats the request.  Each round answers one genuinely needed query,
+      so the dialogue terminates; a request never runs against a defaulted answer.
+  The SPEC additionally uses an independent Lean reference for the taproot tweak check (Base/Secp.lean:
+  lift_x, Q = P + t·G, parity; Base/C01_SecpFast.lean for speed) instead of gocoin's answer, so that "non-liftable internal key accepted"
+  shows up as a difference between the implementation and the rules.
+
+  Requests (byte strings hex, "-" = empty; `<opt>` is hex or the word none):
+    reset                                                              -> ok
+    def sigl <scriptCode> <ht> <digest>                                -> ok
+    def sigw <scriptCode> <ht> <digest>                                -> ok
+    def sigt <annexHash:opt> <tapleaf> <codesepPos> <ht> <script:0|1> <digest> -> ok
+    def ecdsa <pk> <sig> <hash> <0|1>                                  -> ok
+    def schnorr <pk> <sig> <msg> <0|1>                                 -> ok
+    def tweak <q> <p> <k> <parity:0|1> <0|1>                           -> ok
+    verify <flags> <version> <locktime> <sequence> <idx> <nouts> <sigScript> <pkScript> <nwit> <w1> … <wn>
+        -> need <query>
+         | res model=<ok|fail|panic> spec=<OK|ScriptError> class=<same|cltv-csv-discouraged-nop|
+                 taproot-undefined-hashtype|taproot-nonliftable-internal-key|none>
+           (class: `same` when the verdicts agree; otherwise the single documented quirk under which the
+            spec verdict becomes the model's, or `none`)
+    eval <flags> <sv:0|1|3> <version> <locktime> <sequence> <idx> <nouts> <script> <annexHash:opt> <tapleaf>
+         <weightLeft> <n> <item1(bottom)> … <itemn(top)>
+        -> need <query> | res model=<fail|ok:k:i1,…,ik> spec=<ScriptError|ok:k:i1,…,ik>    (items bottom→top)
+    num <bytes>         -> <bts2int|panic> <isMinimal> <bts2bool> <spec decode> <spec minimal> <spec castToBool>
+    pushint <int>       -> <model bytes> <spec bytes>
+    getop <bytes>       -> err | <opcode> <push:opt> <n>    and the spec parse:  … | serr | <op> <data> <afterlen>
+    delsig <where> <sig> -> <model result> <cnt> <spec result> <cnt>
+    sigenc <flags> <sig> -> <model 0|1> <spec OK|err>
+    pkenc <flags> <sv> <pk> -> <model 0|1> <spec OK|err>
+    minpush <data> <opcode> -> <model 0|1> <spec 0|1>
+    sha1 <bytes> | sha256 <bytes> | ripemd160 <bytes>  -> <digest>
+-/
+import GocoinV.Model.ScriptVerify
+import GocoinV.Spec.Script
+import GocoinV.Base.Sha256
+import GocoinV.Base.Ripemd160
+import GocoinV.Base.C01_Sha1
+import GocoinV.Base.C01_SecpFast
 import GocoinV.Base.Proto
-open GocoinV
-def main : IO Unit := Proto.serve () (fun _ _ => ((), "bad-op"))
+open GocoinV GocoinV.Script
+
+abbrev Table := List (Query × Bytes)
+
+def lookupB (t : Table) (q : Query) : Option Bytes := (t.find? (fun e => e.1 == q)).map (·.2)
+def lookupBool (t : Table) (q : Query) : Option Bool := (lookupB t q).map (fun b => b == [1])
+
+def mkOracles (t : Table) : Oracles where
+  sha256 := sha256
+  ripemd160 := ripemd160
+  sha1 := sha1
+  hash160 := hash160
+  hash256 := sha256d
+  sigHashLegacy := fun sc ht => lookupB t (.sigL sc ht)
+  sigHashWitV0 := fun sc ht => lookupB t (.sigW sc ht)
+  sigHashTap := fun a l c h s => lookupB t (.sigT a l c h s)
+  ecdsaVerify := fun pk sg h => lookupBool t (.ecdsa pk sg h)
+  schnorrVerify := fun pk sg m => lookupBool t (.schnorr pk sg m)
+  tweakCheck := fun q p k par => lookupBool t (.tweak q p k par)
+
+/-- BIP341 tweak check, independent reference: lift_x(p) + int(k)·G = (q, parity) -/
+def refTweak (q p k : Bytes) (parity : Bool) : Bool :=
+  if q.length != 32 || p.length != 32 || k.length != 32 then false else
+  match Secp.liftX (beVal p) with
+  | none => false
+  | some P =>
+    let t := beVal k
+    if t ≥ Secp.n then false else
+    match SecpFast.addMulG (some P) t with
+    | none => false
+    | some (x, y) => x == beVal q && (y % 2 == 1) == parity
+
+def withRefTweak (O : Oracles) : Oracles := { O with tweakCheck := fun q p k par => some (refTweak q p k par) }
+
+def optHex : Option Bytes → String
+  | some b => Hex.encode b
+  | none => "none"
+def optDec (s : String) : Option (Option Bytes) :=
+  if s == "none" then some none else (Hex.decode s).map some
+
+def b01 (b : Bool) : String := if b then "1" else "0"
+
+def queryStr : Query → String
+  | .sigL sc ht => s!"sigl {Hex.encode sc} {ht}"
+  | .sigW sc ht => s!"sigw {Hex.encode sc} {ht}"
+  | .sigT a l c h s => s!"sigt {optHex a} {Hex.encode l} {c} {h} {b01 s}"
+  | .ecdsa pk sg h => s!"ecdsa {Hex.encode pk} {Hex.encode sg} {Hex.encode h}"
+  | .schnorr pk sg m => s!"schnorr {Hex.encode pk} {Hex.encode sg} {Hex.encode m}"
+  | .tweak q p k par => s!"tweak {Hex.encode q} {Hex.encode p} {Hex.encode k} {b01 par}"
+
+def errName (e : ScriptSpec.ScriptError) : String :=
+  match e with
+  | .NEED _ => "NEED"
+  | e => ((reprStr e).splitOn ".").getLast!
+
+def decodeAll : List String → Option (List Bytes)
+  | [] => some []
+  | s :: r => do
+    let b ← Hex.decode s
+    let rest ← decodeAll r
+    pure (b :: rest)
+
+def svOf : String → Option SigVersion
+  | "0" => some .base | "1" => some .witnessV0 | "2" => some .taproot | "3" => some .tapscript | _ => none
+
+def itemsStr (s : List Bytes) : String :=
+  s!"ok:{s.length}:" ++ ",".intercalate (s.reverse.map Hex.encode)
+
+/-- spec verdict as a string, or the query it needs -/
+def specRun (O : Oracles) (tx : TxCtx) (pk : Bytes) (flags : Nat) (q : ScriptSpec.Quirks) : Except Query String :=
+  match ScriptSpec.verifyScript O tx pk (ScriptSpec.Flags.ofMask flags) q with
+  | .ok () => .ok "OK"
+  | .error (.NEED qq) => .error qq
+  | .error e => .ok (errName e)
+
+def doVerify (t : Table) (flags : Nat) (tx : TxCtx) (pk : Bytes) : String :=
+  let O := mkOracles t
+  match verifyTxScript O tx pk flags with
+  | .need q => "need " ++ queryStr q
+  | m =>
+    let ms := match m with | .ok _ => "ok" | .fail => "fail" | .panic => "panic" | .need _ => "need"
+    let Os := withRefTweak O
+    match specRun Os tx pk flags {} with
+    | .error q => "need " ++ queryStr q
+    | .ok ss =>
+      let agree := (ms == "ok") == (ss == "OK") && ms != "panic"
+      if agree then s!"res model={ms} spec={ss} class=same" else
+      -- classification: under which single documented quirk does the spec give the model's verdict?
+      let same (r : Except Query String) : Option Bool :=
+        match r with | .ok s2 => some ((ms == "ok") == (s2 == "OK")) | .error _ => none
+      match same (specRun Os tx pk flags { discourageCltvCsv := true }) with
+      | none => "need " ++ (match specRun Os tx pk flags { discourageCltvCsv := true } with | .error q => queryStr q | _ => "?")
+      | some true => s!"res model={ms} spec={ss} class=cltv-csv-discouraged-nop"
+      | some false =>
+        match specRun Os tx pk flags { tapUndefinedHashType := true } with
+        | .error q => "need " ++ queryStr q
+        | .ok s2 =>
+          if (ms == "ok") == (s2 == "OK") then s!"res model={ms} spec={ss} class=taproot-undefined-hashtype" else
+          match specRun O tx pk flags {} with
+          | .error q => "need " ++ queryStr q
+          | .ok s3 =>
+            if (ms == "ok") == (s3 == "OK") then s!"res model={ms} spec={ss} class=taproot-nonliftable-internal-key"
+            else s!"res model={ms} spec={ss} class=none"
+
+def doEval (t : Table) (flags : Nat) (sv : SigVersion) (tx : TxCtx) (script : Bytes) (annex : Option Bytes)
+    (leaf : Bytes) (weight : Int) (items : List Bytes) : String :=
+  let O := mkOracles t
+  let stack := items.reverse
+  let ed : ExecData := { tapleafHash := leaf, annexHash := annex, weightLeft := weight }
+  match evalScript O tx flags script stack sv ed with
+  | .need q => "need " ++ queryStr q
+  | m =>
+    let ms := match m with | .ok s => itemsStr s | _ => "fail"
+    let env : ScriptSpec.Env := ⟨O, tx, ScriptSpec.Flags.ofMask flags, sv, {}, leaf, annex⟩
+    match ScriptSpec.evalScript env script stack weight with
+    | .error (.NEED q) => "need " ++ queryStr q
+    | .error e => s!"res model={ms} spec={errName e}"
+    | .ok s => s!"res model={ms} spec={itemsStr s}"
+
+def txOf (ver lt sq idx nouts : String) (sigScr : Bytes) (wit : List Bytes) : Option TxCtx := do
+  pure { version := ← ver.toNat?, lockTime := ← lt.toNat?, sequence := ← sq.toNat?, idx := ← idx.toNat?,
+         nOuts := ← nouts.toNat?, sigScript := sigScr, witness := wit }
+
+def step (t : Table) (toks : List String) : Table × String :=
+  let bad := (t, "bad-op")
+  match toks with
+  | ["reset"] => ([], "ok")
+  | ["def", "sigl", sc, ht, d] =>
+    match Hex.decode sc, ht.toNat?, Hex.decode d with
+    | some sc, some ht, some d => ((.sigL sc ht, d) :: t, "ok")
+    | _, _, _ => bad
+  | ["def", "sigw", sc, ht, d] =>
+    match Hex.decode sc, ht.toNat?, Hex.decode d with
+    | some sc, some ht, some d => ((.sigW sc ht, d) :: t, "ok")
+    | _, _, _ => bad
+  | ["def", "sigt", a, l, c, h, s, d] =>
+    match optDec a, Hex.decode l, c.toNat?, h.toNat?, Hex.decode d with
+    | some a, some l, some c, some h, some d =>
+      if s == "0" || s == "1" then ((.sigT a l c h (s == "1"), d) :: t, "ok") else bad
+    | _, _, _, _, _ => bad
+  | ["def", "ecdsa", pk, sg, h, r] =>
+    match Hex.decode pk, Hex.decode sg, Hex.decode h with
+    | some pk, some sg, some h => if r == "0" || r == "1" then ((.ecdsa pk sg h, [if r == "1" then 1 else 0]) :: t, "ok") else bad
+    | _, _, _ => bad
+  | ["def", "schnorr", pk, sg, m, r] =>
+    match Hex.decode pk, Hex.decode sg, Hex.decode m with
+    | some pk, some sg, some m => if r == "0" || r == "1" then ((.schnorr pk sg m, [if r == "1" then 1 else 0]) :: t, "ok") else bad
+    | _, _, _ => bad
+  | ["def", "tweak", q, p, k, par, r] =>
+    match Hex.decode q, Hex.decode p, Hex.decode k with
+    | some q, some p, some k =>
+      if (par == "0" || par == "1") && (r == "0" || r == "1") then
+        ((.tweak q p k (par == "1"), [if r == "1" then 1 else 0]) :: t, "ok") else bad
+    | _, _, _ => bad
+  | "verify" :: flags :: ver :: lt :: sq :: idx :: nouts :: sigScr :: pk :: nwit :: ws =>
+    match flags.toNat?, Hex.decode sigScr, Hex.decode pk, nwit.toNat?, decodeAll ws with
+    | some flags, some sigScr, some pk, some nwit, some ws =>
+      if ws.length != nwit then bad else
+      match txOf ver lt sq idx nouts sigScr ws with
+      | some tx => (t, doVerify t flags tx pk)
+      | none => bad
+    | _, _, _, _, _ => bad
+  | "eval" :: flags :: sv :: ver :: lt :: sq :: idx :: nouts :: script :: annex :: leaf :: weight :: n :: items =>
+    match flags.toNat?, svOf sv, Hex.decode script, optDec annex, Hex.decode leaf, weight.toInt?, n.toNat?, decodeAll items with
+    | some flags, some sv, some script, some annex, some leaf, some weight, some n, some items =>
+      if items.length != n then bad else
+      match txOf ver lt sq idx nouts [] [] with
+      | some tx => (t, doEval t flags sv tx script annex leaf weight items)
+      | none => bad
+    | _, _, _, _, _, _, _, _ => bad
+  | ["num", b] =>
+    match Hex.decode b with
+    | some b =>
+      let m := match bts2int b with | .ok v => toString v | _ => "panic"
+      (t, s!"{m} {b01 (isMinimal b)} {b01 (bts2bool b)} {ScriptSpec.ScriptNum.decode b} {b01 (ScriptSpec.ScriptNum.minimal b)} {b01 (ScriptSpec.castToBool b)}")
+    | none => bad
+  | ["pushint", v] =>
+    match v.toInt? with
+    | some v => (t, s!"{Hex.encode (intBytes v)} {Hex.encode (ScriptSpec.ScriptNum.encode v)}")
+    | none => bad
+  | ["getop", b] =>
+    match Hex.decode b with
+    | some b =>
+      let m := match getOpcode b with
+        | none => "err"
+        | some op => s!"{op.opcode} {optHex op.push} {op.n}"
+      let s := match ScriptSpec.parseOne b with
+        | none => "serr"
+        | some i => s!"{i.op} {Hex.encode i.data} {i.after.length}"
+      (t, m ++ " | " ++ s)
+    | none => bad
+  | ["delsig", w, sg] =>
+    match Hex.decode w, Hex.decode sg with
+    | some w, some sg =>
+      let (r, c) := delSig w sg
+      let (r2, c2) := ScriptSpec.findAndDelete w (ScriptSpec.pushEncoding sg)
+      (t, s!"{Hex.encode r} {c} {Hex.encode r2} {c2}")
+    | _, _ => bad
+  | ["sigenc", flags, sg] =>
+    match flags.toNat?, Hex.decode sg with
+    | some flags, some sg =>
+      let s := match ScriptSpec.checkSignatureEncoding (ScriptSpec.Flags.ofMask flags) sg with
+        | .ok _ => "OK" | .error e => errName e
+      (t, s!"{b01 (checkSignatureEncoding sg flags)} {s}")
+    | _, _ => bad
+  | ["pkenc", flags, sv, pk] =>
+    match flags.toNat?, svOf sv, Hex.decode pk with
+    | some flags, some sv, some pk =>
+      let s := match ScriptSpec.checkPubKeyEncoding (ScriptSpec.Flags.ofMask flags) sv pk with
+        | .ok _ => "OK" | .error e => errName e
+      (t, s!"{b01 (checkPubKeyEncoding pk flags sv)} {s}")
+    | _, _, _ => bad
+  | ["minpush", d, op] =>
+    match Hex.decode d, op.toNat? with
+    | some d, some op => (t, s!"{b01 (checkMinimalPush d op)} {b01 (ScriptSpec.checkMinimalPush d op)}")
+    | _, _ => bad
+  | ["sha1", b] => match Hex.decode b with | some b => (t, Hex.encode (sha1 b)) | none => bad
+  | ["sha256", b] => match Hex.decode b with | some b => (t, Hex.encode (sha256 b)) | none => bad
+  | ["ripemd160", b] => match Hex.decode b with | some b => (t, Hex.encode (ripemd160 b)) | none => bad
+  | _ => bad
+
+def main : IO Unit := Proto.serve ([] : Table) step
